@@ -18,6 +18,7 @@ package patch
 
 import (
 	"debug/elf"
+	"encoding/binary"
 	"fmt"
 	"os"
 	"reflect"
@@ -377,8 +378,18 @@ func c03JumpBack(origin uintptr, block []byte, pl uintptr, res string, after []b
 			return "jumps-elsewhere"
 		}
 	}
+	// far form (more than 2 GiB apart): JMP qword ptr [RIP+0] followed by the 8-byte destination — register-free, lands ON it
+	if ins.Op == refx86.JMP && ins.Len == 6 && tail[0] == 0xFF && tail[1] == 0x25 {
+		if m, ok := ins.Args[0].(refx86.Mem); ok && m.Base == refx86.RIP && m.Disp == 0 {
+			if binary.LittleEndian.Uint64(tail[6:14]) == uint64(origin)+uint64(n) {
+				return "jumps-back"
+			}
+			return "jumps-elsewhere"
+		}
+	}
+	// the form used before fix 36abd0c: MOV RDX,imm64 ; JMP [RDX] jumps THROUGH the bytes stored at the destination (defect F5)
 	if tail[0] == 0x48 && tail[1] == 0xBA && tail[10] == 0xFF && tail[11] == 0x22 {
-		return "jumps-back-absolute-form"
+		return "jumps-through-memory"
 	}
 	return "missing"
 }
@@ -402,9 +413,34 @@ func c03Page() []byte {
 	return pg
 }
 
-func c03Small(out *vh.Out, idx int, originOff, trampOff, tsize int, fn []byte, exact bool) {
+// c03FarPage returns a fresh RWX page at least 4 GiB away from the pages c03Page hands out (address hint; never reused)
+var c03farNext uintptr
+
+func c03FarPage(near uintptr) []byte {
+	if c03farNext == 0 {
+		c03farNext = (near + 1<<36) &^ 0xfff
+	}
+	p, _, errno := syscall.Syscall6(syscall.SYS_MMAP, c03farNext, 4096, syscall.PROT_READ|syscall.PROT_WRITE|syscall.PROT_EXEC,
+		syscall.MAP_ANON|syscall.MAP_PRIVATE, ^uintptr(0), 0)
+	if errno != 0 {
+		panic(errno)
+	}
+	c03farNext += 1 << 20
+	pg := (*[4096]byte)(unsafe.Pointer(p))[:]
+	for i := range pg {
+		pg[i] = 0xCC
+	}
+	return pg
+}
+
+func c03Small(out *vh.Out, idx int, originOff, trampOff, tsize int, fn []byte, exact, far bool) {
 	pg := c03Page()
 	base := uintptr(unsafe.Pointer(&pg[0]))
+	tpg, tbase := pg, base
+	if far { // placeholder more than 2 GiB away: the jump back has to take the far form
+		tpg = c03FarPage(base)
+		tbase = uintptr(unsafe.Pointer(&tpg[0]))
+	}
 	copy(pg[originOff:], fn)
 	if exact {
 		// no padding at all: the next function starts right behind, with the prologue fingerprint GetFuncSize looks for
@@ -413,11 +449,11 @@ func c03Small(out *vh.Out, idx int, originOff, trampOff, tsize int, fn []byte, e
 		pg[originOff+len(fn)] = 0xC3 // the "next function"
 	}
 	for i := 0; i < tsize-2; i++ {
-		pg[trampOff+i] = 0x90
+		tpg[trampOff+i] = 0x90
 	}
-	pg[trampOff+tsize-2] = 0xC3
-	pg[trampOff+tsize] = 0x90 // next function after one int3
-	c03Tramp(out, idx, base+uintptr(originOff), []uintptr{base + uintptr(trampOff)}, 1024)
+	tpg[trampOff+tsize-2] = 0xC3
+	tpg[trampOff+tsize] = 0x90 // next function after one int3
+	c03Tramp(out, idx, base+uintptr(originOff), []uintptr{tbase + uintptr(trampOff)}, 1024)
 }
 
 func c03Tramp(out *vh.Out, idx int, origin uintptr, places []uintptr, window int) {
@@ -515,7 +551,7 @@ func TestVerifC03(t *testing.T) {
 				done++
 			}
 		case "c03.small":
-			c03Small(out, op.Idx, int(vh.I64(op.Toks[1])), int(vh.I64(op.Toks[2])), int(vh.I64(op.Toks[3])), vh.UnHex(op.Toks[4]), len(op.Toks) > 5 && op.Toks[5] == "x")
+			c03Small(out, op.Idx, int(vh.I64(op.Toks[1])), int(vh.I64(op.Toks[2])), int(vh.I64(op.Toks[3])), vh.UnHex(op.Toks[4]), len(op.Toks) > 5 && strings.Contains(op.Toks[5], "x"), len(op.Toks) > 5 && strings.Contains(op.Toks[5], "f"))
 		case "c03.zoo":
 			from := uintptr(vh.U64(op.Toks[2]))
 			var tramps []uintptr
